@@ -45,6 +45,10 @@ CHECKS = {
                 technique="TLA+ Copy spec: reference algorithm checked against the contract by TLC for every size class and single-fault plan; TLC enumerates the plans; real runs through FailFS wrappers are recorded (sequence of consulted primitives + final observation) and judged by TLC (CopyJudge evaluates Copy!Contract on every run)",
                 text="Copy.tla states the contract over a recorded run (nil error => destination bytes, permission bits and digest are the source's; any injected failure other than closing the source => non-nil error) and a reference algorithm as a step sequence over the primitives. TLC checks the reference against the contract for 3 functions x 6 size classes around the 32 KiB buffer x every plan 'k-th invocation of primitive F on side S fails' (177 cases, exhaustive) and emits them; the driver executes each case against the real code on 5 (quick) / 9 (thorough) pairs of file systems (MemFS, OrefaFS, OsFS) with counting FailFS wrappers on both sides, reads bytes and mode back from the base file systems, recomputes SHA-256, and TLC judges every recorded run against the contract. The order of consulted primitives is also compared with the reference model (fidelity report, not a verdict).",
                 note="Trusted: FailFS's consult-then-forward (C12 checks it), SHA-256, TLC. One fault per run."),
+    "C17": dict(cat="model_checking", design="DESIGN.md section 8 C17",
+                technique="the same TLA+ FS specification instantiated for Windows-typed targets (errno abstracted to 'a Windows error value', modes/owners not compared): C01's TLC-generated transitions replayed on Windows-typed AND Linux-typed MemFS/OrefaFS built with avfs_setostype, TLC trace validation; Volumes.tla (TLC exhaustive, independence of volumes) replayed on MemFS",
+                text="With the driver built with -tags 'verif avfs_setostype' (generic path functions), the bounded universe of C01 (L<=3 quick / L<=4 thorough, plus the symlink profile) is replayed with portable path builders (C:\\ + '\\'-joined components vs '/'-joined) on Windows-typed and Linux-typed MemFS and OrefaFS; both are judged against the same specification, so they agree call by call on success/failure and reach isomorphic trees (names, types, contents, link counts) unless an open deviation operator says otherwise; every failure of a Windows-typed instance must carry a Windows error value. OSType/PathSeparator/Features of freshly constructed instances are checked, and Volumes.tla (volume set, one independent root per volume, Linux-typed has none) is explored exhaustively for sequences of <=3/5 volume calls and replayed.",
+                note="Chown/Lchown/Chmod/umask calls are not issued to Windows-typed instances (documented as OS specific). Needs the SetOSType repair (FX21)."),
 }
 
 
